@@ -4,6 +4,7 @@
   rbac.set     <setting> md:…                          gnmi Set with that incoming metadata (fixed valid request)
   rbac.authset <setting> cl:<key>=s:<v>|l:<v>,<v> md:… AuthenticationInterceptor (token with these claims) then Set
   rbac.list    <oidc> <rocenv> ent:<id>,<id> md:…      Get of target "*": the listed target ids
+                 (<rocenv> = `unset`, or the value of the defined variable, `-` = defined but empty)
   rbac.authlist <oidc> <rocenv> ent:… cl:… md:…        the same behind the interceptor
   rbac.split <sep> <s> / rbac.fields <seps> <s>         strings.Split / strings.FieldsFunc
 -/
@@ -38,6 +39,9 @@ def decClaimTok (tok : String) : Option (Str × Claim) := do
 def decEntTok (tok : String) : Option (List Str) := do
   let body ← stripTag "ent:" tok
   decList body
+
+def decRocEnv (tok : String) : Option (Option Str) :=
+  if tok == "unset" then some none else (decStr tok).map some
 
 def mdToks (toks : List String) : Option MD := (toks.filter (·.startsWith "md:")).mapM decMdTok
 def claimToks (toks : List String) : Option (List (Str × Claim)) := (toks.filter (·.startsWith "cl:")).mapM decClaimTok
@@ -81,13 +85,13 @@ def handle (op : String) (args : List String) : Option String :=
     pure (encSet (setHandler setting (fromIncoming (authIncoming (fromIncoming md) claims)) fixedRest))
   | "list", o :: r :: e :: rest => do
     let oidc ← decStr o
-    let roc ← decStr r
+    let roc ← decRocEnv r
     let ents ← decEntTok e
     let md ← mdToks rest
     pure (encTargets ((getGroups (fromIncoming md)).map fun g => reportAllTargets oidc roc g ents))
   | "authlist", o :: r :: e :: rest => do
     let oidc ← decStr o
-    let roc ← decStr r
+    let roc ← decRocEnv r
     let ents ← decEntTok e
     let md ← mdToks rest
     let claims ← claimToks rest
